@@ -165,6 +165,9 @@ pub fn spaces(tier: Tier) -> Vec<Space<'static>> {
             RVal::arr(vec![RVal::u(0)]), RVal::arr(vec![RVal::f(1.0)]), RVal::obj(vec![("a", RVal::u(0))]), RVal::obj(vec![("\u{20000}", RVal::s("\u{30000}"))]),
             // keys whose byte order differs from their length order (a producer with another key order shows)
             RVal::obj(vec![("aa", RVal::u(1)), ("b", RVal::u(2))]),
+            // two different objects that look alike when keys are written without escaping
+            RVal::obj(vec![("a", RVal::u(1)), ("b", RVal::u(2))]),
+            RVal::obj(vec![("a\":1,\"b", RVal::u(2))]),
         ];
         let mut docs: Vec<RVal> = vec![RVal::Arr(vec![])];
         for x in &al {
